@@ -66,7 +66,45 @@ func subsTokens(ss []fsub, sc int) string {
 // genFlat returns a flat path with integer coordinates and the name of its class.
 func genFlat(c *hc.Ctx) (*canvas.Path, string) {
 	var pool []hc.P2
-	switch c.Intn(9) {
+	switch c.Intn(10) {
+	case 9:
+		// Filling through an OPEN enclosing contour (baea187): the outer contour starts right after the
+		// direction of the +x axis and is not closed, so that its missing closing segment lies to the
+		// right of the inner contour's start vertex, where Filling casts its ray
+		outer := starShaped(c, 4+c.Intn(5), 9, 0, 0, c.Bool())
+		so, ok := flatSubs(outer)
+		if !ok || len(so) != 1 {
+			return outer, "star-shaped"
+		}
+		vs := so[0].vs
+		// rotate: start at the vertex with the smallest positive angle (ccw order) / largest negative (cw)
+		k, best := 0, math.Inf(1)
+		for i, v := range vs {
+			a := math.Atan2(v.Y, v.X)
+			j := (i + len(vs) - 1) % len(vs)
+			b := math.Atan2(vs[j].Y, vs[j].X)
+			// the segment from vs[j] to vs[i] spans the +x axis if the angles have different signs and are small
+			if a*b <= 0 && math.Abs(a)+math.Abs(b) < best && math.Abs(a) < math.Pi/2 && math.Abs(b) < math.Pi/2 {
+				k, best = i, math.Abs(a)+math.Abs(b)
+			}
+		}
+		P := &canvas.Path{}
+		for i := range vs {
+			v := vs[(k+i)%len(vs)]
+			if i == 0 {
+				P.MoveTo(v.X, v.Y)
+			} else {
+				P.LineTo(v.X, v.Y)
+			}
+		}
+		// small inner contour around the centre, closed or open
+		in := starShaped(c, 3+c.Intn(3), 1, 0, 0, c.Bool())
+		if c.Bool() {
+			P = P.Append(in)
+		} else {
+			P = in.Append(P)
+		}
+		return P, "nested-open-outer"
 	case 8:
 		// open subpath that starts at its bottom-right-most vertex (CCW takes the previous direction
 		// from the implicit closing segment there), alone or inside a rectangle
